@@ -453,9 +453,14 @@ Proof.
   unfold known_order. rewrite !orb_true_iff, !beq_eq. tauto.
 Qed.
 
+(** the order names a field may carry after "@": "fixed" is the order of a
+    parenthesised list and, spelled out as a name, has no values *)
+Definition plain_order (o : bytes) : Prop := o = ord_first \/ o = ord_alpha \/ o = ord_num.
+
 (** a field the semantic layer accepts *)
 Definition field_ok (p : pfield) : Prop :=
   known_order (pf_order p) = true /\
+  (pf_order p = ord_fixed -> pf_fixed p <> []) /\
   (pf_key p = key_config -> pf_order p <> ord_fixed) /\
   pf_key p <> key_unit /\ pf_key p <> [].
 
@@ -463,16 +468,25 @@ Lemma check_field_none p : check_field p = None <-> field_ok p.
 Proof.
   unfold check_field, field_ok. destruct (known_order (pf_order p)); cbn [negb].
   2:{ split; [discriminate|intros [H _]; discriminate]. }
+  assert (Hfx : beq (pf_order p) ord_fixed && match pf_fixed p with [] => true | _ => false end = false
+                <-> (pf_order p = ord_fixed -> pf_fixed p <> [])).
+  { destruct (beq_spec (pf_order p) ord_fixed) as [Eo|Eo]; cbn [andb].
+    - destruct (pf_fixed p); split; try discriminate; try reflexivity.
+      intros H. now elim (H Eo).
+    - split; [intros _ H; now elim Eo|reflexivity]. }
+  destruct (beq (pf_order p) ord_fixed && match pf_fixed p with [] => true | _ => false end).
+  { split; [discriminate|]. intros (_ & H & _). apply Hfx in H. discriminate. }
+  assert (Hf : pf_order p = ord_fixed -> pf_fixed p <> []) by now apply Hfx.
   destruct (beq_spec (pf_key p) key_config) as [Ec|Ec].
   { rewrite Ec. destruct (beq_spec (pf_order p) ord_fixed) as [Eo|Eo].
-    - split; [discriminate|]. intros (_ & H & _). now elim (H eq_refl).
+    - split; [discriminate|]. intros (_ & _ & H & _). now elim (H eq_refl).
     - split; [|reflexivity]. intros _. repeat split; auto; discriminate. }
   destruct (beq_spec (pf_key p) (bs ".fullname")) as [Ef|Ef].
   { rewrite Ef. split; [|reflexivity]. intros _. repeat split; auto; discriminate. }
   destruct (beq_spec (pf_key p) key_unit) as [Eu|Eu].
-  { split; [discriminate|]. intros (_ & _ & H & _). now elim H. }
+  { split; [discriminate|]. intros (_ & _ & _ & H & _). now elim H. }
   destruct (pf_key p) eqn:Ek.
-  - split; [discriminate|]. intros (_ & _ & _ & H). now elim H.
+  - split; [discriminate|]. intros (_ & _ & _ & _ & H). now elim H.
   - split; [|reflexivity]. intros _. repeat split; auto; discriminate.
 Qed.
 
@@ -490,9 +504,16 @@ Proof.
   intros [Hk Ho]. unfold check_field.
   destruct (known_order (pf_order p)) eqn:Eko; cbn [negb].
   2:{ intros [= <-]. destruct Ho as [Ho|Ho]; [|exact Ho]. rewrite Ho in Eko. discriminate. }
+  destruct (beq_spec (pf_order p) ord_fixed) as [Efx|Efx]; cbn [andb].
+  { destruct (pf_fixed p).
+    - intros [= <-]. destruct Ho as [Ho|Ho]; [|exact Ho]. rewrite Ho in Efx. discriminate.
+    - destruct (beq (pf_key p) key_config); [intros [= <-]; destruct Ho as [Ho|Ho]; [|exact Ho];
+                                             rewrite Ho in Efx; discriminate|].
+      destruct (beq (pf_key p) (bs ".fullname")); [discriminate|].
+      destruct (beq (pf_key p) key_unit); [intros [= <-]; exact Hk|].
+      destruct (pf_key p); [intros [= <-]; exact Hk|discriminate]. }
   destruct (beq (pf_key p) key_config).
-  { destruct (beq_spec (pf_order p) ord_fixed) as [Eo|Eo]; [|discriminate].
-    intros [= <-]. destruct Ho as [Ho|Ho]; [|exact Ho]. rewrite Ho in Eo. discriminate. }
+  { destruct (beq_spec (pf_order p) ord_fixed) as [Eo|Eo]; [now elim Efx|discriminate]. }
   destruct (beq (pf_key p) (bs ".fullname")); [discriminate|].
   destruct (beq (pf_key p) key_unit); [intros [= <-]; exact Hk|].
   destruct (pf_key p); [intros [= <-]; exact Hk|discriminate].
@@ -508,8 +529,18 @@ Qed.
 Lemma check_fields_unit l p : In p l -> pf_key p = key_unit -> check_fields l <> None.
 Proof.
   intros Hin Hk H. apply check_fields_none in H. rewrite Forall_forall in H.
-  destruct (H p Hin) as (_ & _ & Hu & _). now elim Hu.
+  destruct (H p Hin) as (_ & _ & _ & Hu & _). now elim Hu.
 Qed.
+
+(** the check as it was before the repair of golang/perf (commit 9f4ec2f): no
+    test for a fixed order without values. Kept only to record what changed. *)
+Definition check_field_before_fix (p : pfield) : option nat :=
+  if negb (known_order (pf_order p)) then Some (pf_ooff p)
+  else if beq (pf_key p) key_config then
+    if beq (pf_order p) ord_fixed then Some (pf_ooff p) else None
+  else if beq (pf_key p) (bs ".fullname") then None
+  else if beq (pf_key p) key_unit then Some (pf_koff p)
+  else match pf_key p with [] => Some (pf_koff p) | _ => None end.
 
 (** ** the theorems about texts *)
 Section Reject.
@@ -665,15 +696,30 @@ Proof.
   - now elim (parse_projection_total is_space re_ok q).
 Qed.
 
-(** "k@name" with a name that is none of fixed, first, alpha, num *)
+Lemma field_ok_named p : field_ok p -> pf_fixed p = [] -> plain_order (pf_order p).
+Proof.
+  intros (Hko & Hfx & _) Hnil. apply known_order_iff in Hko.
+  destruct Hko as [Ho|Ho]; [now elim (Hfx Ho)|exact Ho].
+Qed.
+
+(** "k@name" with a name that is none of first, alpha, num (a word right after
+    an "@"; in particular the name fixed, and every unknown name) *)
 Theorem rejects_unknown_order q pre a w post :
   proj_tokens q = LexOk (pre ++ a :: w :: post) -> is_at a = true -> is_word (t_kind w) = true ->
-  known_order (t_text w) = false -> rejected (new_projection q) q.
+  ~ plain_order (t_text w) -> rejected (new_projection q) q.
 Proof.
   intros H Ha Hw Hk. apply (text_reject q). intros l Hl.
   destruct (parse_projection_sound q l Hl) as (ts & Hts & Hf). rewrite H in Hts. injection Hts as <-.
-  destruct (proj_fields_order _ _ _ _ _ Hf Ha Hw) as (p & Hin & Ho & _).
-  exists p. split; [exact Hin|]. intros (Hko & _). rewrite Ho in Hko. congruence.
+  destruct (proj_fields_order _ _ _ _ _ Hf Ha Hw) as (p & Hin & Ho & _ & Hnil).
+  exists p. split; [exact Hin|]. intros Hok. apply Hk. rewrite <- Ho. now apply field_ok_named.
+Qed.
+
+(** no accepted projection has a fixed order without values, however it is written *)
+Theorem no_empty_fixed_list q l p :
+  new_projection q = Ok l -> In p l -> pf_order p = ord_fixed -> pf_fixed p <> [].
+Proof.
+  intros H Hin Ho. apply new_projection_ok_iff in H. destruct H as [_ Hf].
+  rewrite Forall_forall in Hf. destruct (Hf p Hin) as (_ & Hfx & _). now apply Hfx.
 Qed.
 
 Theorem rejects_unknown_order_tree q l p :
@@ -687,7 +733,7 @@ Qed.
 Theorem rejects_unit_tree q l p :
   parse_projection q = Ok l -> In p l -> pf_key p = key_unit -> rejected (new_projection q) q.
 Proof.
-  intros Hp Hin Hk. apply (rejects_bad_field q l p Hp Hin). intros (_ & _ & Hu & _). now elim Hu.
+  intros Hp Hin Hk. apply (rejects_bad_field q l p Hp Hin). intros (_ & _ & _ & Hu & _). now elim Hu.
 Qed.
 
 Theorem rejects_bad_key_proj_text q pre k post :
@@ -698,7 +744,7 @@ Proof.
   destruct (parse_projection_sound q l Hl) as (ts & Hts & Hf). rewrite H in Hts. injection Hts as <-.
   pose proof (proj_fields_key _ _ _ _ Hf Hw Hpos) as Hin.
   apply in_map_iff in Hin. destruct Hin as (p & Hpk & Hin).
-  exists p. split; [exact Hin|]. intros (_ & _ & Hu & He). rewrite Hpk in Hu, He.
+  exists p. split; [exact Hin|]. intros (_ & _ & _ & Hu & He). rewrite Hpk in Hu, He.
   destruct Hk as [Hk|Hk]; [now elim Hu|now elim He].
 Qed.
 
@@ -710,8 +756,8 @@ Proof. intros H Hw Hpos Hk. eapply rejects_bad_key_proj_text; eauto. Qed.
 End Reject.
 
 (** ** "k"@"name" for all byte strings k and name: the syntax layer accepts
-    every name; the semantic layer accepts exactly fixed, first, alpha, num
-    (fixed not for .config), whatever the key is except .unit and the empty key *)
+    every name; the semantic layer accepts exactly first, alpha, num, whatever
+    the key is except .unit and the empty key *)
 Section Named.
 Variable is_space : N -> bool.
 Variable re_ok : bytes -> bool.
@@ -748,24 +794,29 @@ Qed.
 
 Theorem new_projection_named_order_iff k o :
   (exists l, new_projection is_space re_ok (named_text k o) = Ok l) <->
-  known_order o = true /\ (k = key_config -> o <> ord_fixed) /\ k <> key_unit /\ k <> [].
+  plain_order o /\ k <> key_unit /\ k <> [].
 Proof.
   split.
   - intros (l & H). apply new_projection_ok_iff in H. destruct H as [H Hf].
-    rewrite projection_named_order in H. injection H as <-. inversion Hf as [|? ? Hp _]. exact Hp.
-  - intros H. eexists. apply new_projection_ok_iff. split; [apply projection_named_order|].
-    constructor; [exact H|constructor].
+    rewrite projection_named_order in H. injection H as <-. inversion Hf as [|? ? Hp _].
+    split; [exact (field_ok_named _ Hp eq_refl)|]. destruct Hp as (_ & _ & _ & Hu & He). auto.
+  - intros (Ho & Hu & He). eexists. apply new_projection_ok_iff. split; [apply projection_named_order|].
+    constructor; [|constructor]. unfold field_ok. cbn [pf_order pf_key pf_fixed].
+    split; [apply known_order_iff; tauto|]. split; [|split; [|auto]].
+    + intros ->. destruct Ho as [Ho|[Ho|Ho]]; discriminate Ho.
+    + intros _ ->. destruct Ho as [Ho|[Ho|Ho]]; discriminate Ho.
 Qed.
 
-(** in particular "k"@"fixed" is accepted, with an empty value list -- the
-    very thing "k"@() is refused for *)
-Corollary fixed_by_name_accepted k :
-  k <> [] -> k <> key_unit -> k <> key_config ->
-  new_projection is_space re_ok (named_text k ord_fixed)
-  = Ok [mkField k ord_fixed [] 0 (S (length (cquote k)))].
+(** "k"@"fixed" -- the order name spelled out, hence without a value list --
+    is refused for every key, at the offset of the name (as "k"@() is, for the
+    same reason: nothing to match) *)
+Theorem rejects_fixed_by_name k :
+  new_projection is_space re_ok (named_text k ord_fixed) = Err (S (length (cquote k)))
+  /\ S (length (cquote k)) <= length (named_text k ord_fixed).
 Proof.
-  intros H1 H2 H3. apply new_projection_ok_iff. split; [apply projection_named_order|].
-  constructor; [|constructor]. repeat split; auto.
+  split.
+  - unfold new_projection. rewrite projection_named_order. reflexivity.
+  - unfold named_text. rewrite app_length. cbn [length]. lia.
 Qed.
 
 End Named.
